@@ -29,6 +29,12 @@ pub struct Lz77Params {
     pub block_tokens: usize,
     /// every n-th block is emitted as a stored block (0 = never)
     pub stored_every: usize,
+    /// a run of this many empty blocks (alternating empty fixed and empty stored blocks, as idle
+    /// sync flushes produce them) is inserted after the first block
+    pub empty_run: usize,
+    /// no matches at all: every byte is a literal (with a huge block_tokens this gives one
+    /// block with more than 2^20 tokens for inputs above 1 MiB)
+    pub literals_only: bool,
 }
 
 impl Lz77Params {
@@ -58,12 +64,14 @@ impl Lz77Params {
             very_far: rng.chance(1, 4),
             block_tokens: *rng.pick(&[127usize, 511, 1000, 4095, 16383, 100000]),
             stored_every: if rng.chance(1, 5) { rng.range(2, 5) as usize } else { 0 },
+            empty_run: if rng.chance(1, 6) { *rng.pick(&[1usize, 2, 5, 16, 17, 18, 40]) } else { 0 },
+            literals_only: false,
         }
     }
 
     pub fn describe(&self) -> String {
         format!(
-            "lz77(w={},h={},ins={}{},lazy={:?},nice={},chain={},d3={},start={},far={},blk={},stored/{})",
+            "lz77(w={},h={},ins={}{},lazy={:?},nice={},chain={},d3={},start={},far={},blk={},stored/{},empty={},lit={})",
             self.window_bits,
             self.hash_bytes,
             self.insert_limit,
@@ -75,7 +83,9 @@ impl Lz77Params {
             self.match_to_start as u8,
             self.very_far as u8,
             self.block_tokens,
-            self.stored_every
+            self.stored_every,
+            self.empty_run,
+            self.literals_only as u8
         )
     }
 }
@@ -181,7 +191,7 @@ fn tokenize(data: &[u8], p: &Lz77Params) -> Vec<Tok> {
     let mut toks = Vec::new();
     let mut pos = 0usize;
     while pos < data.len() {
-        let cur = if pos == 0 { None } else { m.find(pos, 0, p.max_chain) };
+        let cur = if pos == 0 || p.literals_only { None } else { m.find(pos, 0, p.max_chain) };
         match cur {
             None => {
                 toks.push(Tok::Lit(data[pos]));
@@ -328,6 +338,22 @@ pub fn encode(data: &[u8], p: &Lz77Params) -> Vec<u8> {
             fixed_litlen(&mut w, 256);
         }
         pos += plain_len;
+        if b == 0 && !last && p.empty_run > 0 {
+            for k in 0..p.empty_run {
+                w.bits(0, 1);
+                if k % 2 == 0 {
+                    // empty stored block (what Z_SYNC_FLUSH emits)
+                    w.bits(0, 2);
+                    w.align();
+                    w.bits(0, 16);
+                    w.bits(0xffff, 16);
+                } else {
+                    // empty fixed block
+                    w.bits(1, 2);
+                    fixed_litlen(&mut w, 256);
+                }
+            }
+        }
     }
     w.align();
     w.out
